@@ -220,4 +220,14 @@ theorem refines_runMuts (cmp : K → K → Int) : ∀ (ms : List (Juniper.Proofs
     · simp only [runMuts, applyMut, hp]; exact h1'
     · simp only [List.map_cons, toHeapMut, Heap.runMuts, hhp, Option.bind_some]; exact h2'
 
+/-- the inverse renaming of histories -/
+theorem toHeapMut_surj (ms : List (Heap.Mut K V)) : ∃ ms' : List (Juniper.Proofs.Tree.Mut K V), ms'.map toHeapMut = ms := by
+  induction ms with
+  | nil => exact ⟨[], rfl⟩
+  | cons m ms ih =>
+    obtain ⟨ms', h⟩ := ih
+    cases m with
+    | put k v => exact ⟨.put k v :: ms', by simp [toHeapMut, h]⟩
+    | del k => exact ⟨.del k :: ms', by simp [toHeapMut, h]⟩
+
 end Juniper.Proofs.TreeHeapLink
